@@ -33,8 +33,23 @@ package loading
 // fields as the same target written in YAML.
 //@ func (*scriptParser).parse(p) (pkg, found, err)
 //@   before_call append#1 [annotation_line_verbatim] len(arg2) == 1 && arg2[0] == sub(trimmedNext, 1, len(trimmedNext))
+// ... and the script file is exactly one target: named by the annotation or else by the file, its own bin output, with the
+// annotation's fields carried over (the file itself added to the inputs, "no-cache" to the tags)
+//@   ensures [one_target_per_script] err == nil ==> found && len(pkg.Targets) == 1 && pkg.SourceFilePath == p.file &&
+//@        pkg.Targets[0].Name == ite(annotation.Name != "", annotation.Name, baseName(p.file)) && pkg.Targets[0].BinOutput == baseName(p.file)
+//@   ensures [annotation_fields_carried] err == nil ==> pkg.Targets[0].Dependencies == annotation.Dependencies && pkg.Targets[0].Fingerprint == annotation.Fingerprint &&
+//@        pkg.Targets[0].EnvironmentVariables == annotation.EnvironmentVariables && pkg.Targets[0].Timeout == annotation.Timeout && pkg.Targets[0].Platforms == annotation.Platforms
+//@   ensures [script_is_its_own_input_and_never_cached] err == nil ==> inStrs(pkg.Targets[0].Inputs, baseName(p.file)) && inStrs(pkg.Targets[0].Tags, "no-cache") &&
+//@        (forall j int :: {annotation.Inputs[j]} 0 <= j && j < len(annotation.Inputs) ==> inStrs(pkg.Targets[0].Inputs, annotation.Inputs[j])) &&
+//@        (forall j int :: {annotation.Tags[j]} 0 <= j && j < len(annotation.Tags) ==> inStrs(pkg.Targets[0].Tags, annotation.Tags[j]))
 //@ loop #2
 //@   invariant [same_len] len(annotationLines) == len(annotationLineNumbers)
+
+//@ func prependUnique(values, element) (r)
+//@   pure
+//@   reveal inStrs
+//@   ensures [element_and_all_values] inStrs(r, element) && (forall j int :: {values[j]} 0 <= j && j < len(values) ==> inStrs(r, values[j]))
+//@   ensures [nothing_else] forall x string :: {inStrs(r, x)} inStrs(r, x) ==> x == element || inStrs(values, x)
 
 // C01: "files added, removed or renamed under declared globs": every declared input is resolved - a pattern to all of its
 // matches, a literal path to itself - and an entry is dropped only if an exclude pattern matches it.
